@@ -30,7 +30,7 @@ PROBES = ["fallback_taken", "fallback_desc_false", "model_kept", "all_untrained"
           "memorise_worse_branch", "override_on", "enc_pm1", "enc_10", "enc_bool", "parquet", "workers>1",
           "zero_scores_returned", "multi_file", "confidence_checked", "confidence_desc_false", "fold_aligned_feature",
           "folds_disagree_on_best_feature", "all_trained_but_fallback", "confidence_rollup_level_checked", "confidence_repeated",
-          "feat_pass_compared_with_reference", "integer_best_feature", "tied_values_compete"]
+          "feat_pass_compared_with_reference", "integer_best_feature", "tied_values_compete", "targets_listed_before_decoys"]
 RULE = (
     "For each sampled data set (planted strong feature, lower-is-better in half of them; 3 label encodings; text/Parquet) "
     "and fold count, EVERY assignment of {good, noise, constant, raise_recognised, anti, memorise, overfit} to the folds' estimators "
@@ -109,6 +109,8 @@ def scenarios(tier, batch_seed):
                 if dp["n_files"] == 2:
                     dp["size_factors"] = [1.0, rng.choice([1.0, 0.7])]
                     dp["n_spectra"] = max(dp["n_spectra"], rng.randint(200, 250))  # calibration is per (file, fold)
+                if (d + round_no + ("pm1", "10", "bool").index(enc)) % 2 == 1:
+                    dp["row_order"] = "targets_first"  # with all-equal scores (untrained folds) file order decides tie handling
                 if (d + round_no + ("pm1", "10", "bool").index(enc)) % 3 == 0:
                     # the planted best feature is integer-typed with magnitudes above 2**24 (fixed-point with an offset)
                     dp["int_feature"] = {"idx": dp["strong"], "offset": rng.choice([2**30, 10**12]), "scale": rng.choice([20, 500])}
@@ -186,6 +188,7 @@ def run_scenario(scn, workdir):
         "workers>1": int(cfg["max_workers"] > 1),
         "multi_file": int(len(tables) > 1),
         "integer_best_feature": int(bool(scn["data"].get("int_feature"))),
+        "targets_listed_before_decoys": int(scn["data"].get("row_order") == "targets_first"),
     }
     out = {
         "status": "ok",
